@@ -289,7 +289,6 @@ template <typename D> static void common_domain_scenarios(const std::string& dn,
       (void) x.affine_dimension(); (void) x.contains_integer_point(); (void) x.minimized_constraints(); (void) x.minimized_congruences(); });
     dscn<D>(dn + ".widening" + sfx, [st]() { D* p = mk_dom<D>(0, 3, st); D* q = mk_dom<D>(1, 3, 0); p->upper_bound_assign(*q); delete q; return p; },
             [st]() { return mk_dom<D>(0, 3, (st + 2) % 3); }, [](D& x, const D& y) { x.widening_assign(y); });
-    dscn<D>(dn + ".ascii_dump_load" + sfx, X3, none, [](D& x, const D&) { std::stringstream ss; x.ascii_dump(ss); D z(1); z.ascii_load(ss); x.m_swap(z); });
     dscn<D>(dn + ".simplify_using_context" + sfx, X3, Y3, [](D& x, const D& y) { (void) x.simplify_using_context_assign(y); });
     dscn<D>(dn + ".wrap_assign" + sfx, X3, none, [](D& x, const D&) { Variables_Set vs; vs.insert(Variable(0)); vs.insert(Variable(2)); x.wrap_assign(vs, BITS_8, UNSIGNED, OVERFLOW_WRAPS); });
     dscn<D>(dn + ".drop_some_non_integer_points" + sfx, X3, none, [](D& x, const D&) { x.drop_some_non_integer_points(); });
